@@ -9,7 +9,7 @@ WT=/tmp/ev_$$
 git -C /repo worktree add -q --detach $WT HEAD || exit 2
 trap "git -C /repo worktree remove --force $WT 2>/dev/null; rm -rf $WT" EXIT
 res=""
-(cd $WT && git apply "$D/patch.diff" && go build ./... && go test -vet=off -count=1 ./... >/tmp/ev_suite.$$ 2>&1); rcs=$?
+(cd $WT && (git apply "$D/patch.diff" || git apply -3 "$D/patch.diff") && go build ./... && go test -vet=off -count=1 ./... >/tmp/ev_suite.$$ 2>&1); rcs=$?
 (cd $WT && git checkout -q -- . )
 for f in "$D"/*_test.go; do
   [ -f "$f" ] || continue
@@ -20,11 +20,18 @@ for f in "$D"/*_test.go; do
   name=$(basename "$f")
   funcs=$(grep -oE '^func (Test[A-Za-z0-9_]+)' "$f" | awk '{print $2}' | paste -sd'|')
   (cd $WT && go test $tags -vet=off -count=1 -run "^($funcs)\$" ./$dir/ >/tmp/ev_clean.$$ 2>&1); rc0=$?
-  (cd $WT && git apply "$D/patch.diff") || { echo "PATCH DOES NOT APPLY"; exit 2; }
+  (cd $WT && (git apply "$D/patch.diff" || git apply -3 "$D/patch.diff")) || { echo "PATCH DOES NOT APPLY"; exit 2; }
   (cd $WT && go test $tags -vet=off -count=1 -run "^($funcs)\$" ./$dir/ >/tmp/ev_mut.$$ 2>&1); rc1=$?
   (cd $WT && git checkout -q -- . )
   res="$res demo=$name clean_rc=$rc0 mutated_rc=$rc1 suite_with_patch_rc=$rcs;"
 done
 echo "CONFIRM: $res"
 rm -f /tmp/ev_clean.$$ /tmp/ev_suite.$$ /tmp/ev_mut.$$
-[ $# -gt 0 ] && /verif/tools/mutest.sh "$D/patch.diff" "$@" 2>&1 | cut -c1-400
+# checks against the patched scratch worktree (VERIF_REPO), /repo itself is not touched
+(cd $WT && git checkout -q -- . && git clean -fdq && (git apply "$D/patch.diff" || git apply -3 "$D/patch.diff")) || { echo "PATCH DOES NOT APPLY for the checks"; exit 2; }
+for id in "$@"; do
+  echo "=== $id"
+  (cd /verif && VERIF_REPO=$WT VERIF_EVIDENCE_DIR=/tmp/ev_evi_$$ ./check "$id" ${TIER:-quick} 2>&1 | grep -E "VIOLATION|KNOWN-FINDING|BROKEN|violation:" | head -${LINES_MAX:-6}; echo "rc=$?")
+done
+rm -rf /tmp/ev_evi_$$
+h=$(python3 -c "import hashlib;print(hashlib.sha1('$WT'.encode()).hexdigest()[:10])"); rm -rf /verif/.build_$h
